@@ -252,7 +252,7 @@ XSimNext ==
   /\ bad = "" /\ Len(path) < Depth - 1
   /\ LET op  == RandomElement(HistOps)
          cs  == XCallsOf(s, op, org.key)
-         cs2 == IF cs = {} THEN {K0("collect_garbage")} ELSE cs
+         cs2 == IF Cardinality(cs) = 0 THEN {K0("collect_garbage")} ELSE cs
      IN \E c \in {RandomElement(cs2)} : XStep(c, FALSE)
 XSimView == <<s, done, bad, Len(path)>>
 XSimSpec == XInit /\ [][XSimNext]_vars
